@@ -79,6 +79,7 @@ def gen_case(rng):
         ad_opts += ["--no-indels"]
     post = []
     zero_cap = fmt == "fastq" and rng.random() < 0.35
+    qbase = 64 if (fmt == "fastq" and rng.random() < 0.2) else 33
     if action not in ("mask", "lowercase"):
         if rng.random() < 0.3:
             post += ["--poly-a"]
@@ -90,18 +91,20 @@ def gen_case(rng):
             post += ["--trim-n"]
     if zero_cap:
         post += ["--zero-cap"]
-    feats = dict(maxlen=50, polya="--poly-a" in post, nruns=True, lower=rng.random() < 0.3,
+    if qbase != 33:
+        post += ["--quality-base", str(qbase)]
+    feats = dict(qual_base=qbase, maxlen=50, polya="--poly-a" in post, nruns=True, lower=rng.random() < 0.3,
                  revcomp_some=revcomp, qual_profile=None if not zero_cap else rng.choice([None, "lowbase"]),
                  alphabets=["ACGT", "ACGT", "ACGTN"])
     recs1, recs2 = G.gen_reads(rng, rng.randint(15, 50), paired, ads1, ads2 or ads1, **feats)
     return dict(paired=paired, fmt=fmt, ads1=ads1, ads2=ads2, action=action, times=times, pair_adapters=pair_adapters,
-                revcomp=revcomp, pre=pre, ad_opts=ad_opts, post=post, zero_cap=zero_cap, recs1=recs1, recs2=recs2 if paired else None)
+                revcomp=revcomp, pre=pre, ad_opts=ad_opts, post=post, zero_cap=zero_cap, qbase=qbase, recs1=recs1, recs2=recs2 if paired else None)
 
 
-def zc(q, on):
+def zc(q, on, base=33):
     if q is None or not on:
         return q
-    return "".join(c if ord(c) >= 33 else "!" for c in q)
+    return "".join(c if ord(c) >= base else chr(base) for c in q)
 
 
 def find_slices(out_s, out_q, src_s, src_q, cmp=None):
@@ -236,7 +239,7 @@ def evaluate(ctx, c, case, run, trim_run):
                 if q is None or len(s) != len(q):
                     ctx.violation("length-mismatch", f"read {key}: {len(s)} bases, qualities {q!r}", case)
                     continue
-            sq2 = zc(sq, c["zero_cap"])
+            sq2 = zc(sq, c["zero_cap"], c.get("qbase", 33))
             if c["fmt"] == "fasta":
                 sq2 = None
             action = c["action"]
@@ -311,7 +314,7 @@ def check_trace(ctx, c, case, key, side, g, tg, src_record, written):
                     ctx.count("differential_orientation_differs")
             check_adapter_stage(ctx, c, case, side, I, o, ev[3], ev[4], trim_O, key)
         elif cls == "ZeroCapper":
-            if o[1] != i[1] or o[2] != zc(i[2], True):
+            if o[1] != i[1] or o[2] != zc(i[2], True, c.get("qbase", 33)):
                 ctx.violation("zero-cap", f"ZeroCapper: {i[2]!r} -> {o[2]!r}", case)
         elif cls in ("LengthTagModifier", "SuffixRemover", "PrefixSuffixAdder", "Renamer", "PairedEndRenamer"):
             if (o[1], o[2]) != (i[1], i[2]):
